@@ -4,4 +4,7 @@
 (* limits are [minE, maxE] with maxE = -1 for "no maximum".                                *)
 EXTENDS Integers, Sequences, FiniteSets, TLC
 MustStop(ev, lim) == (ev[1] /\ ev[2] >= lim.minE) \/ (lim.maxE >= 0 /\ ev[2] > lim.maxE)
+(* single_step mode: once a refinement has happened in this call (last = point count before that refinement, -1 = none yet) *)
+(* the maximum is replaced by last + 1, so the run stops at the first evaluation that shows at least two more points          *)
+EffLim(lim, single, last) == IF single /\ last >= 0 THEN [lim EXCEPT !.maxE = last + 1] ELSE lim
 =====================================================================================
